@@ -66,7 +66,7 @@ def liveTrace (h : Handler) (old : G) (maxRound : Nat) : List String :=
   vgt <old G> <new G> <now>
   chainpre <G>
   handover <period> <genesis> <tt> <maxRound>
-  admit <selfAddr> <nextRound> <lastStored> <pRound> <idx|none> <verifies 0/1> <ownIdx> <nodes idx|addr;…> -/
+  admission <selfAddr> <nextRound> <lastStored> <pRound> <idx|none> <verifies 0/1> <ownIdx> <nodes idx|addr;…> -/
 def dkgrunStep (f : List String) : String :=
   match f with
   | ["sort", keys] =>
@@ -111,7 +111,7 @@ def dkgrunStep (f : List String) : String :=
       | none => "no-callback"
       | some pd => s!"target={pd.targetRound} live=" ++ ",".intercalate (liveTrace h old mx)
     | _, _, _, _ => "bad-op"
-  | ["admit", self, nr, ls, pr, idx, ver, own, nodes] =>
+  | ["admission", self, nr, ls, pr, idx, ver, own, nodes] =>
     match nr.toNat?, ls.toNat?, pr.toNat?, own.toNat?, parseSemi parseGNodeLite nodes with
     | some nr, some ls, some pr, some own, some nodes =>
       let g : G := { id := [], threshold := 0, periodSec := 0, scheme := "", catchupSec := 0, genesisTime := 0, genesisSeed := [],
